@@ -71,6 +71,8 @@ type Seg struct {
 	Facts  []Fact
 	ord    map[ssa.Instruction]int
 	pred   map[*ssa.BasicBlock]*ssa.BasicBlock // predecessor of each block on this path
+	inl    map[*ssa.Call]*ssa.Return           // helper calls expanded on this path -> the return taken
+	bind   map[*ssa.Parameter]ssa.Value        // parameters of expanded helpers -> caller arguments
 }
 
 type FnPaths struct {
@@ -78,11 +80,32 @@ type FnPaths struct {
 	Headers   map[*ssa.BasicBlock]bool
 	Segs      []*Seg
 	Truncated bool
+	Inline    bool // small same-package helpers are expanded in place
 }
 
 const maxSegs = 4096
 
 var pathCache = map[*ssa.Function]*FnPaths{}
+var pathCacheInl = map[*ssa.Function]*FnPaths{}
+
+// PathsInl enumerates the segments of fn with small same-package helper functions expanded in
+// place (see inlinable): rules that describe a stage loop, a parser or a builder use it so that
+// extracting part of the body into a helper does not change what they see.
+func PathsInl(fn *ssa.Function) *FnPaths {
+	if fp, ok := pathCacheInl[fn]; ok {
+		return fp
+	}
+	fp := &FnPaths{Fn: fn, Headers: LoopHeaders(fn), Inline: true}
+	pathCacheInl[fn] = fp
+	fp.build()
+	if fp.Truncated {
+		// too many paths once expanded: fall back to the plain enumeration
+		plain := Paths(fn)
+		pathCacheInl[fn] = plain
+		return plain
+	}
+	return fp
+}
 
 // LoopHeaders returns the blocks that are targets of back edges.
 func LoopHeaders(fn *ssa.Function) map[*ssa.BasicBlock]bool {
@@ -104,8 +127,14 @@ func Paths(fn *ssa.Function) *FnPaths {
 	}
 	fp := &FnPaths{Fn: fn, Headers: LoopHeaders(fn)}
 	pathCache[fn] = fp
+	fp.build()
+	return fp
+}
+
+func (fp *FnPaths) build() {
+	fn := fp.Fn
 	if len(fn.Blocks) == 0 {
-		return fp
+		return
 	}
 	starts := []*ssa.BasicBlock{fn.Blocks[0]}
 	for _, b := range fn.Blocks {
@@ -114,10 +143,10 @@ func Paths(fn *ssa.Function) *FnPaths {
 		}
 	}
 	for _, st := range starts {
-		s := &Seg{Fn: fn, Start: st, ord: map[ssa.Instruction]int{}, pred: map[*ssa.BasicBlock]*ssa.BasicBlock{}}
-		fp.walk(s, st, nil, 0)
+		s := &Seg{Fn: fn, Start: st, ord: map[ssa.Instruction]int{}, pred: map[*ssa.BasicBlock]*ssa.BasicBlock{},
+			inl: map[*ssa.Call]*ssa.Return{}, bind: map[*ssa.Parameter]ssa.Value{}}
+		fp.walkAt(s, st, 0, nil, 0, nil)
 	}
-	return fp
 }
 
 func (s *Seg) clone() *Seg {
@@ -133,39 +162,148 @@ func (s *Seg) clone() *Seg {
 	for k, v := range s.pred {
 		c.pred[k] = v
 	}
+	c.inl = make(map[*ssa.Call]*ssa.Return, len(s.inl))
+	for k, v := range s.inl {
+		c.inl[k] = v
+	}
+	c.bind = make(map[*ssa.Parameter]ssa.Value, len(s.bind))
+	for k, v := range s.bind {
+		c.bind[k] = v
+	}
 	return &c
 }
 
-func (fp *FnPaths) walk(s *Seg, b, from *ssa.BasicBlock, n int) {
+// inlFrame is a pending return into the caller of an expanded helper.
+type inlFrame struct {
+	call  *ssa.Call
+	block *ssa.BasicBlock
+	idx   int
+	fn    *ssa.Function
+}
+
+// InlineHelpers switches the expansion of small same-package helper functions in segments.
+// A helper extracted from a stage loop / parser / builder is then seen as if it were still in
+// place: its events, facts and blocks are spliced into the caller's segment, its parameters
+// resolve to the arguments and its result to the value returned on that path.
+var InlineHelpers = true
+
+const maxInlineInstrs = 80
+const maxInlineDepth = 2
+
+// inlinable decides whether the call is expanded: a direct call of a small, loop-free,
+// defer-free, non-recursive function of the same package that is not a guarded-send helper.
+func (fp *FnPaths) inlinable(s *Seg, c *ssa.Call, stack []inlFrame) *ssa.Function {
+	if !fp.Inline || !InlineHelpers || len(stack) >= maxInlineDepth {
+		return nil
+	}
+	f := c.Call.StaticCallee()
+	if f == nil || f.Blocks == nil || f.Pkg == nil || f.Pkg != fp.Fn.Pkg || f.Synthetic != "" || f == fp.Fn || f.Parent() != nil {
+		return nil
+	}
+	for _, fr := range stack {
+		if fr.fn == f {
+			return nil
+		}
+	}
+	if !inlineCandidate(f) {
+		return nil
+	}
+	for _, ob := range s.Blocks {
+		if ob.Parent() == f {
+			return nil // already expanded once on this path
+		}
+	}
+	return f
+}
+
+var inlCand = map[*ssa.Function]int{}
+
+func inlineCandidate(f *ssa.Function) bool {
+	if v, ok := inlCand[f]; ok {
+		return v == 1
+	}
+	inlCand[f] = 2
+	n := 0
+	for _, b := range f.Blocks {
+		for _, succ := range b.Succs {
+			if succ.Dominates(b) {
+				return false // loop
+			}
+		}
+		for _, in := range b.Instrs {
+			n++
+			switch in.(type) {
+			case *ssa.Defer, *ssa.Go, *ssa.RunDefers, *ssa.MakeClosure:
+				return false
+			}
+		}
+	}
+	if n > maxInlineInstrs || f.Recover != nil {
+		return false
+	}
+	if f.Signature.Variadic() {
+		return false
+	}
+	inlCand[f] = 0
+	if SummGuardedSend(f) != nil {
+		inlCand[f] = 2
+		return false
+	}
+	inlCand[f] = 1
+	return true
+}
+
+func (fp *FnPaths) walkAt(s *Seg, b *ssa.BasicBlock, start int, from *ssa.BasicBlock, n int, stack []inlFrame) {
 	if len(fp.Segs) >= maxSegs {
 		fp.Truncated = true
 		return
 	}
-	if from != nil {
-		s.pred[b] = from
-	}
-	if from != nil && fp.Headers[b] {
-		s.End = b
-		s.finish()
-		fp.Segs = append(fp.Segs, s)
-		return
-	}
-	for _, ob := range s.Blocks {
-		if ob == b { // irreducible or unexpected cycle: stop, treat as truncated
-			fp.Truncated = true
+	if start == 0 {
+		if from != nil {
+			s.pred[b] = from
+		}
+		if len(stack) == 0 && from != nil && fp.Headers[b] {
+			s.End = b
+			s.finish()
+			fp.Segs = append(fp.Segs, s)
 			return
 		}
+		for _, ob := range s.Blocks {
+			if ob == b { // irreducible or unexpected cycle: stop, treat as truncated
+				fp.Truncated = true
+				return
+			}
+		}
+		s.Blocks = append(s.Blocks, b)
 	}
-	s.Blocks = append(s.Blocks, b)
-	for _, in := range b.Instrs {
+	for i := start; i < len(b.Instrs); i++ {
+		in := b.Instrs[i]
 		n++
 		s.ord[in] = n
-		if ev := eventOf(in); ev != nil {
+		_, isRet := in.(*ssa.Return)
+		if ev := eventOf(in); ev != nil && !(isRet && len(stack) > 0) {
 			ev.Ord = n
 			s.Events = append(s.Events, ev)
 		}
 		switch t := in.(type) {
+		case *ssa.Call:
+			if callee := fp.inlinable(s, t, stack); callee != nil {
+				for k, prm := range callee.Params {
+					if k < len(t.Call.Args) {
+						s.bind[prm] = t.Call.Args[k]
+					}
+				}
+				st2 := append(append([]inlFrame(nil), stack...), inlFrame{call: t, block: b, idx: i + 1, fn: callee})
+				fp.walkAt(s, callee.Blocks[0], 0, nil, n, st2)
+				return
+			}
 		case *ssa.Return:
+			if len(stack) > 0 {
+				fr := stack[len(stack)-1]
+				s.inl[fr.call] = t
+				fp.walkAt(s, fr.block, fr.idx, nil, n, stack[:len(stack)-1])
+				return
+			}
 			s.Exit = t
 			s.finish()
 			fp.Segs = append(fp.Segs, s)
@@ -176,20 +314,20 @@ func (fp *FnPaths) walk(s *Seg, b, from *ssa.BasicBlock, n int) {
 			fp.Segs = append(fp.Segs, s)
 			return
 		case *ssa.Jump:
-			fp.walk(s, b.Succs[0], b, n)
+			fp.walkAt(s, b.Succs[0], 0, b, n, stack)
 			return
 		case *ssa.If:
-			for i, succ := range b.Succs {
-				truth := i == 0
+			for k, succ := range b.Succs {
+				truth := k == 0
 				if !s.feasible(t.Cond, truth) {
 					continue
 				}
 				c := s
-				if i == 0 {
+				if k == 0 {
 					c = s.clone()
 				}
 				c.Facts = append(c.Facts, Fact{Cond: t.Cond, Truth: truth, Ord: n})
-				fp.walk(c, succ, b, n)
+				fp.walkAt(c, succ, 0, b, n, stack)
 			}
 			return
 		}
@@ -295,6 +433,11 @@ func (s *Seg) feasible(cond ssa.Value, truth bool) bool {
 	}
 	if c, ok := cond.(*ssa.Const); ok && c.Value != nil && c.Value.Kind() == constant.Bool {
 		return constant.BoolVal(c.Value) == truth
+	}
+	if len(s.inl) > 0 {
+		if val, known := s.evalInlinedCond(cond); known {
+			return val == truth
+		}
 	}
 	key, neg := s.condKey(cond)
 	for _, f := range s.Facts {
@@ -442,11 +585,99 @@ func (s *Seg) Resolve(v ssa.Value) ssa.Value {
 		case *ssa.ChangeInterface:
 			v = t.X
 			continue
+		case *ssa.Parameter:
+			if a, ok := s.bind[t]; ok {
+				v = a
+				continue
+			}
+			return v
+		case *ssa.Call:
+			if ret, ok := s.inl[t]; ok && len(ret.Results) == 1 {
+				v = ret.Results[0]
+				continue
+			}
+			return v
+		case *ssa.Extract:
+			if c, ok := t.Tuple.(*ssa.Call); ok {
+				if ret, ok := s.inl[c]; ok && t.Index < len(ret.Results) {
+					v = ret.Results[t.Index]
+					continue
+				}
+			}
+			return v
 		default:
 			return v
 		}
 	}
 	return v
+}
+
+// evalInlinedCond decides a branch condition whose operands resolve, through an expanded
+// helper, to constants: a boolean constant, or a nil test of a value known to be nil / non-nil.
+func (s *Seg) evalInlinedCond(cond ssa.Value) (val, known bool) {
+	neg := false
+	v := cond
+	for {
+		if u, ok := v.(*ssa.UnOp); ok && u.Op == token.NOT {
+			v, neg = u.X, !neg
+			continue
+		}
+		break
+	}
+	if _, isCall := v.(*ssa.Call); isCall {
+		if b, ok := constBool(s.Resolve(v)); ok {
+			return b != neg, true
+		}
+	}
+	if ex, isEx := v.(*ssa.Extract); isEx {
+		if b, ok := constBool(s.Resolve(ex)); ok {
+			return b != neg, true
+		}
+	}
+	if bo, ok := v.(*ssa.BinOp); ok && (bo.Op == token.EQL || bo.Op == token.NEQ) {
+		var other ssa.Value
+		if isNilConst(bo.Y) {
+			other = bo.X
+		} else if isNilConst(bo.X) {
+			other = bo.Y
+		}
+		if other != nil {
+			switch other.(type) {
+			case *ssa.Call, *ssa.Extract:
+				r := s.Resolve(other)
+				if r == other {
+					return false, false
+				}
+				if isNilConst(r) {
+					return (bo.Op == token.EQL) != neg, true
+				}
+				nonNil := false
+				switch rt := r.(type) {
+				case *ssa.MakeInterface, *ssa.Alloc, *ssa.MakeMap, *ssa.MakeSlice, *ssa.MakeChan, *ssa.MakeClosure:
+					nonNil = true
+				case *ssa.UnOp:
+					if rt.Op == token.MUL {
+						if _, isG := rt.X.(*ssa.Global); isG && isErrorType(rt.Type()) {
+							nonNil = true
+						}
+					}
+				case *ssa.Call:
+					switch calleeFull(&rt.Call) {
+					case "errors.New", "fmt.Errorf":
+						nonNil = true
+					}
+				}
+				if nonNil {
+					return (bo.Op == token.NEQ) != neg, true
+				}
+				// a fact established inside the helper about the very value it returned
+				if k, isNil := s.NilFact(r); k {
+					return ((bo.Op == token.EQL) == isNil) != neg, true
+				}
+			}
+		}
+	}
+	return false, false
 }
 
 // PhiIn returns the value flowing into a phi of the segment's End header along this path.
@@ -920,8 +1151,8 @@ var gsDone = map[*ssa.Function]bool{}
 
 // SummGuardedSend recognises guarded-send helpers by their body, whatever they are called.
 func SummGuardedSend(fn *ssa.Function) *GuardedSend {
-	if fn == nil || len(fn.Blocks) == 0 {
-		return nil
+	if fn == nil || len(fn.Blocks) == 0 || fn.Signature.Results().Len() != 0 {
+		return nil // a helper that reports whether it sent is expanded in place instead (PathsInl)
 	}
 	if gsDone[fn] {
 		return gsCache[fn]
